@@ -1,9 +1,10 @@
-from . import streams_search, cli
+from . import streams_search, cli, streams_physdist
 
 ID = 'C12'
 PROPS_MODULE = ['Refine.Props.C12']
 STREAMS = [streams_search.TREE, streams_search.NEAREST, streams_search.KERNEL, streams_search.SCALE_TIE,
-           streams_search.SCALE, cli.DISTANCE, cli.DISTANCE_MPI]
+           streams_search.SCALE, cli.DISTANCE, cli.DISTANCE_MPI,
+           streams_physdist.PAR, streams_physdist.BC, streams_physdist.TAGS]
 
 EXPLANATION = (
     'Proved in Lean over exact real arithmetic, for the executable model of ref_search.c / '
